@@ -194,6 +194,9 @@ class Lib:
         recv.items.append(args[0])     # python lists are path-local values here (no aliasing across forks: see Path.fork)
         p.notes.append('list.append modelled by value')
         return [(p, VNone())]
+    if isinstance(recv, VRef) and recv.types and 'list' in recv.types and not hasattr(list, name):
+      ex.raise_(p, 'AttributeError', "'list' object has no attribute '%s' (line %s)" % (name, cx.line()))
+      return []
     h = getattr(self, 'generic_methods', {}).get(name)
     if h is not None:
       return self._norm(h(cx, recv, *args, **kwargs), cx)
